@@ -176,7 +176,9 @@ def _bitvals_to_packed_array(bits, maxbits):
         raise ValueError("maxbits must be a multiple of 8.")
 
     arr = np.zeros(maxbits, dtype=np.bool_)
-    arr[bits] = True
+    # An index array, so that a tuple of positions is not taken for a
+    # multi-dimensional index.
+    arr[np.atleast_1d(np.asarray(bits, dtype=np.int64))] = True
     return np.packbits(arr, bitorder="little")
 
 
